@@ -230,6 +230,12 @@ func (fx *FnExec) oos(format string, a ...interface{}) {
 
 func (fx *FnExec) family(st *State, key string, sort *Sort) *Term {
 	if t, ok := st.heap[key]; ok {
+		if !fx.noAssume && len(fx.pendingAxiom) > 0 {
+			if p, ok := fx.pendingAxiom[key]; ok {
+				delete(fx.pendingAxiom, key)
+				fx.oldRefsAxiom(p.name, p.t, p.epoch)
+			}
+		}
 		return t
 	}
 	// unknown heap contents of this epoch: a named constant shared by every state of the epoch
@@ -248,6 +254,13 @@ func (fx *FnExec) oldRefsAxiom(name string, t *Term, epoch int) {
 		fx.famAxiom = map[string]bool{}
 	}
 	if fx.famAxiom[name] || strings.HasPrefix(name[strings.IndexByte(name, '|')+1:], "GF|") {
+		return
+	}
+	if fx.noAssume {
+		if fx.pendingAxiom == nil {
+			fx.pendingAxiom = map[string]pendingFam{}
+		}
+		fx.pendingAxiom[name[strings.IndexByte(name, '|')+1:]] = pendingFam{name, t, epoch}
 		return
 	}
 	fx.famAxiom[name] = true
@@ -299,6 +312,9 @@ func (fx *FnExec) subNonNil(t *Term) {
 	}
 	fx.subSeen[t] = true
 	c := fx.c
+	if t.open {
+		return // interior reference formed under a quantifier: no facts are instantiated for it
+	}
 	fx.assumeGlobal(c.Not(c.Eq(t, fx.nilRef())))
 	// interior objects are distinct from freshly allocated top-level objects, and the
 	// functions forming them are injective
@@ -450,6 +466,9 @@ const maxLenBits = 46
 
 func (fx *FnExec) assumeSliceInv(s SliceV) {
 	c := fx.c
+	if s.Ref.open || s.Off.open || s.Len.open || s.Cap.open {
+		return // value read under a quantifier: representation invariants are not instantiated
+	}
 	z := fx.bv64(0)
 	lim := c.BVConst(mask(maxLenBits), 64)
 	fx.assumeGlobal(c.And(
@@ -460,6 +479,9 @@ func (fx *FnExec) assumeSliceInv(s SliceV) {
 
 func (fx *FnExec) assumeStrInv(s StrV) {
 	c := fx.c
+	if s.Arr.open || s.Off.open || s.Len.open {
+		return
+	}
 	z := fx.bv64(0)
 	lim := c.BVConst(mask(maxLenBits), 64)
 	fx.assumeGlobal(c.And(c.BVCmp("bvsle", z, s.Off), c.BVCmp("bvsle", z, s.Len), c.BVCmp("bvsle", s.Len, lim), c.BVCmp("bvsle", s.Off, lim)))
@@ -1127,3 +1149,10 @@ func (fx *FnExec) mergeStates(ins []incoming) *State {
 	}
 	return res
 }
+
+type pendingFam struct {
+	name  string
+	t     *Term
+	epoch int
+}
+
